@@ -25,7 +25,7 @@ def register(name):
         GENERATORS.append(name)
 
 
-for _n in ("tdata_enums", "tdata_sched", "tdata_misc", "tcode_exec", "tdata_headers"):
+for _n in ("tdata_enums", "tdata_sched", "tdata_misc", "tcode_exec", "tdata_headers", "tdata_exit"):
     if os.path.exists(os.path.join(os.path.dirname(__file__), _n + ".py")):
         register(_n)
 
